@@ -3,6 +3,7 @@
 Translators are fail-closed: any construct they do not recognise raises, the
 build of the dependent proofs then fails and the check reports it."""
 TRANSLATORS = {}
+LOAD_ERRORS = {}
 
 
 def register(name, owners):
@@ -18,7 +19,10 @@ def _load():
     import os
     here = os.path.dirname(__file__)
     for m in pkgutil.iter_modules([here]):
-        importlib.import_module(__name__ + "." + m.name)
+        try:
+            importlib.import_module(__name__ + "." + m.name)
+        except Exception as e:   # a broken translator module must not take every check down
+            LOAD_ERRORS[m.name] = "%s: %s" % (type(e).__name__, e)
 
 
 _load()
